@@ -131,6 +131,36 @@ class GenProblem:
                 except Exception:
                     p.clear_trajectory_constraints()
 
+        self.metric = None
+        if k["metrics"] and rng.random() < 0.85:
+            self.add_random_metric()
+
+    def add_random_metric(self):
+        from unified_planning.model.metrics import (MinimizeActionCosts, MinimizeSequentialPlanLength,
+                                                    MinimizeExpressionOnFinalState, MaximizeExpressionOnFinalState,
+                                                    Oversubscription)
+        rng, p, env = self.rng, self.problem, self.env
+        r = rng.random()
+        if r < 0.35:
+            costs = {}
+            for a in self.actions:
+                if rng.random() < 0.8:
+                    costs[a] = self.gen_num(1, list(a.parameters), ()) if rng.random() < 0.6 else self.em.Int(rng.randint(0, 4))
+            default = self.em.Int(rng.randint(0, 3)) if (len(costs) < len(self.actions) or rng.random() < 0.5) else None
+            m = MinimizeActionCosts(costs, default, environment=env)
+        elif r < 0.5:
+            m = MinimizeSequentialPlanLength(environment=env)
+        elif r < 0.75:
+            e = self.gen_num(2, [], ()) if self.num_fluents() else self.em.Int(rng.randint(0, 3))
+            m = (MinimizeExpressionOnFinalState if rng.random() < 0.5 else MaximizeExpressionOnFinalState)(e, environment=env)
+        else:
+            goals = {}
+            for _ in range(rng.randint(1, 3)):
+                goals[self.gen_bool(1, [], ())] = rng.choice([1, 2, -1, Fraction(3, 2), 5])
+            m = Oversubscription(goals, environment=env)
+        p.add_quality_metric(m)
+        self.metric = m
+
     # ------------------------------------------------------------------ helpers
     def objects_of(self, t):
         return list(self.problem.objects(t))
@@ -373,6 +403,25 @@ class SerProblem:
         invs = glist([ser_expr(g, n) for g in getattr(p, "state_invariants", [])])
         return ("{| p_objs := %s; p_ifun := %s; p_fluents := %s; p_actions := %s; p_goals := %s; p_invs := %s |}"
                 % (objs, self.ifun_table(), fls, acts, goals, invs))
+
+    def render_metric(self, m):
+        n = self.names
+        if m is None:
+            return "MNone"
+        if m.is_minimize_action_costs():
+            rows = []
+            for a in self.actions:
+                c = m.costs.get(a, None)
+                if c is not None:
+                    rows.append(gpair(gn(n.act(a)), ser_expr(c, n)))
+            return "(MCosts %s %s)" % (glist(rows), gopt(None if m.default is None else ser_expr(m.default, n)))
+        if m.is_minimize_sequential_plan_length():
+            return "MLength"
+        if m.is_minimize_expression_on_final_state() or m.is_maximize_expression_on_final_state():
+            return "(MFinal %s)" % ser_expr(m.expression, n)
+        if m.is_oversubscription():
+            return "(MOversub %s)" % glist([gpair(ser_expr(g, n), gqc(w)) for g, w in m.goals.items()])
+        raise ValueError("metric not modelled: %s" % m)
 
     def fexp(self, f, args):
         em = self.problem.environment.expression_manager
